@@ -118,6 +118,48 @@ class Folder:
                 v = self.fold(n.func.value)
                 if isinstance(v, dict):
                     return list(v.keys())
+            # constant propagation through pure text functions of constants: re.sub, textwrap.dedent, str methods
+            d = dotted(n.func)
+            if d == 're.sub' and 3 <= len(n.args) <= 5 and all(k.arg in ('count', 'flags') for k in n.keywords):
+                args = [self.fold(a) for a in n.args]
+                kw = {k.arg: self.fold(k.value) for k in n.keywords}
+                if all(isinstance(a, str) for a in args[:3]) and all(isinstance(v_, int) for v_ in list(args[3:]) + list(kw.values())):
+                    try:
+                        return re.sub(*args, **kw)
+                    except re.error as e:
+                        raise NotConstant(f're.sub: {e}')
+                raise NotConstant('re.sub')
+            if d == 'textwrap.dedent' and len(n.args) == 1 and not n.keywords:
+                v = self.fold(n.args[0])
+                if isinstance(v, str):
+                    import textwrap
+                    return textwrap.dedent(v)
+                raise NotConstant('dedent')
+            if isinstance(n.func, ast.Attribute) and n.func.attr in ('replace', 'strip', 'lstrip', 'rstrip', 'lower', 'upper', 'splitlines', 'split') and not n.keywords:
+                recv = self.fold(n.func.value)
+                args = [self.fold(a) for a in n.args]
+                if isinstance(recv, str) and all(isinstance(a, (str, int)) for a in args):
+                    return getattr(recv, n.func.attr)(*args)
+                raise NotConstant('str method')
+            # a module-level function that is one expression of its parameters (reassignments of a local included),
+            # applied to constants
+            if isinstance(n.func, ast.Name) and not any(isinstance(a, ast.Starred) for a in n.args):
+                fdef = next((st for st in self.mod.tree.body if isinstance(st, ast.FunctionDef) and st.name == n.func.id), None)
+                if fdef is not None and not fdef.decorator_list and getattr(self, '_depth', 0) < 4:
+                    from .summ import summarise_return, _bind_call
+                    rv = summarise_return(fdef)
+                    bound = _bind_call(fdef, n) if rv is not None else None
+                    if rv is not None and bound is not None:
+                        vals = {k: self.fold(v) for k, v in bound.items()}
+                        saved = self.env
+                        self.env = dict(saved)
+                        self.env.update(vals)
+                        self._depth = getattr(self, '_depth', 0) + 1
+                        try:
+                            return self.fold(rv)
+                        finally:
+                            self.env = saved
+                            self._depth -= 1
             raise NotConstant('call')
         raise NotConstant(type(n).__name__)
 
